@@ -16,7 +16,8 @@ EXPLANATION = (
     'checked for a guaranteed release under the shell protocol (Once: one resume; Never: none; Many: any number) — Never and Many have '
     'none, which are recorded known findings; R13.d an insert into the cleared-timer set that is not tied to a live future has no '
     'guaranteed release (known finding); R13.e the fields of Core that hold user types are declared (and so dropped) before the executor '
-    'and the channel receivers; R13.f the long-lived containers of the runtime crates are exactly the tabled ones. Timely release of '
+    'and the channel receivers (R13.c also requires that every path from resolving a one-shot entry to the return of resume() passes the test that frees it, '
+    'including the path on which resolve() returned an error); R13.f the long-lived containers of the runtime crates are exactly the tabled ones. Timely release of '
     'captured values for every program is not decided.')
 
 CONTAINER_RX = re.compile(r'\b(slab::Slab|std::collections::hash::map::HashMap|std::collections::hash::set::HashSet|'
